@@ -199,6 +199,26 @@ class Lengths:
             out = iv if out is None else out.join(iv)
         return out if out is not None else TOP
 
+    def _local_list(self, f: Func, name: str) -> t.Optional[ast.List]:
+        """A local list as a display: assigned once to a display, or `X = []` filled by one append per row of a loop over
+        a literal table (the normal form of a comprehension over that table)."""
+        defs = [n for n in body_nodes(f.node) if isinstance(n, (ast.Assign, ast.AnnAssign)) and n.value is not None and [unparse(x) for x in (n.targets if isinstance(n, ast.Assign) else [n.target])] == [name]]
+        others = [n for n in body_nodes(f.node) if isinstance(n, (ast.AugAssign, ast.For, ast.NamedExpr)) and any(isinstance(x, ast.Name) and x.id == name and isinstance(x.ctx, ast.Store) for x in ast.walk(n.target))]
+        if len(defs) != 1 or others or not isinstance(defs[0].value, ast.List):
+            return None
+        calls = [n for n in body_nodes(f.node) if isinstance(n, ast.Call) and isinstance(n.func, ast.Attribute) and unparse(n.func.value) == name]
+        if not calls and not any(isinstance(x, ast.Starred) for x in defs[0].value.elts):
+            return defs[0].value
+        if defs[0].value.elts or len(calls) != 1 or calls[0].func.attr != "append" or len(calls[0].args) != 1:  # type: ignore[attr-defined]
+            return None
+        loops = [n for n in body_nodes(f.node) if isinstance(n, ast.For) and any(x is calls[0] for x in ast.walk(n))]
+        if len(loops) != 1 or self.conditional(f, calls[0]):
+            return None
+        rows = self.world.analyse(f)._literal_rows(loops[0].iter)
+        if rows is None:
+            return None
+        return ast.List(elts=[calls[0].args[0]] * len(rows), ctx=ast.Load())
+
     def list_args(self, f: Func, name: str, depth: int) -> t.List[t.Tuple[Func, t.Optional[ast.List]]]:
         """List literals reaching parameter `name` of f through the package's call sites (None = unknown)."""
         if depth > 4:
@@ -226,6 +246,8 @@ class Lengths:
                 out.append((caller, arg))
             elif isinstance(arg, ast.Name) and arg.id in caller.params:
                 out += self.list_args(caller, arg.id, depth + 1)
+            elif isinstance(arg, ast.Name) and self._local_list(caller, arg.id) is not None:
+                out.append((caller, self._local_list(caller, arg.id)))
             else:
                 out.append((caller, None))
         return out
